@@ -621,6 +621,23 @@ Proof.
   apply qsum_map_ext_in. intros q _. field. exact Ht.
 Qed.
 
+(* the normaliser z of [squares], which brd_step tests against 0 *)
+Lemma squares_mass_sumsq : forall (d : scores) (t : Q), ~ t == 0 ->
+  squares_mass cand d t == sumsq d / (t * t).
+Proof.
+  intros d t Ht. unfold Rules.squares_mass. rewrite <- (squares_z d t Ht), map_map. reflexivity.
+Qed.
+
+Lemma squares_mass_zero_iff : forall (d : scores) (t : Q), ~ t == 0 ->
+  (squares_mass cand d t == 0 <-> sumsq d == 0).
+Proof.
+  intros d t Ht. rewrite (squares_mass_sumsq d t Ht).
+  assert (Htt : ~ t * t == 0) by (intros E'; apply Qmult_integral in E'; tauto).
+  split; intros E.
+  - rewrite <- (Qmult_div_r (sumsq d) (t * t) Htt). rewrite E. ring.
+  - rewrite E. field. exact Ht.
+Qed.
+
 Lemma squares_total : forall (d : scores) (t : Q), ~ t == 0 -> ~ sumsq d == 0 ->
   qsum (map snd (squares d t)) == 1.
 Proof.
@@ -774,6 +791,7 @@ Theorem brd_squares_branch : forall (p : profile) (prev : estate) (st st' : msta
   Qle_bool u (1 / (Qnat (length (cands p)) - 1)) = true ->
   brd_step p prev st = inl ((np, e), st') ->
   ~ total_wt (ballots p) == 0 /\
+  ~ squares_mass cand (escores prev) (total_wt (ballots p)) == 0 /\
   exists w rest', rest = DCand w :: rest' /\ In w (map fst (escores prev)) /\
     elected e = [[w]] /\ remove_cand_prof [w] true false p = inl np /\
     st' = mkM rest' (CNpChoice (squares (escores prev) (total_wt (ballots p))) :: CUniform :: lg st).
@@ -781,6 +799,8 @@ Proof.
   intros p prev st st' u rest np e Hscr Hns Hle H.
   unfold Rules.brd_step, mbind, Core.next_draw in H. rewrite Hscr in H. unfold ok in H.
   assert (H' : (if Qeq_bool (total_wt (ballots p)) 0 then mfail EValue else
+            if Qeq_bool (squares_mass cand (escores prev) (total_wt (ballots p))) 0
+            then mfail EValue else
             fun s0 : mstate =>
             match (match scr s0 with
                    | [] => err EScript
@@ -798,6 +818,9 @@ Proof.
   { destruct (cands p) as [|c1 [|c2 cs]] eqn:Hc; [| exfalso; apply (Hns c1); exact Hc |];
       rewrite Hle in H; exact H. }
   clear H. destruct (Qeq_bool (total_wt (ballots p)) 0) eqn:Hq; [discriminate|].
+  split; [intros E; apply Qeq_bool_iff in E; congruence|].
+  destruct (Qeq_bool (squares_mass cand (escores prev) (total_wt (ballots p))) 0) eqn:Hq2;
+    [discriminate|].
   split; [intros E; apply Qeq_bool_iff in E; congruence|].
   cbn [scr lg] in H'. destruct rest as [|dc rest']; [discriminate|].
   destruct dc as [| | | |w|]; try discriminate.
@@ -825,7 +848,7 @@ Proof.
     destruct (elect_one_inv _ _ _ _ _ _ _ _ H) as (-> & _). exists []. split; [exact Hscr|reflexivity].
   - destruct (Qle_bool u (1 / (Qnat (length (cands p)) - 1))) eqn:Hle.
     + destruct (brd_squares_branch p prev st st' u rest np e Hscr Hns Hle H)
-        as (_ & w & rest' & _ & _ & _ & _ & ->).
+        as (_ & _ & w & rest' & _ & _ & _ & _ & ->).
       exists [CNpChoice (squares (escores prev) (total_wt (ballots p)))].
       split; [exact Hscr|reflexivity].
     + rewrite (brd_else_branch p prev st u rest Hscr Hns Hle) in H.
